@@ -31,14 +31,26 @@ def row_is_blank(L, post, y, cols):
 def path_grid(ctx, job, box):
     cols, lines = job.params['geom']
     op = job.params['op']
-    run = GridRun(ctx, box, cols, lines, cursor='pick', tabstops=1)
+    remote = job.params.get('remote')
+    opts = dict(remote_opts(cols, lines), dirty='none', titles='none', extra_mode=False) if remote else {'cursor': 'pick'}
+    run = GridRun(ctx, box, cols, lines, tabstops=1, **opts)
     L = run.L
     ss = run.ss
+    if remote and ss.m_some is not False:
+        # tall screen: the region is fixed per path (chosen by the solver among the listed ones), so that the
+        # row loops of the implementation run over concrete bounds
+        if ctx.branch(to_z3bool(ss.m_some)):
+            ctx.concretize(ss.m_top)
+            ctx.concretize(ss.m_bot)
     n_opt = None
     via = job.params.get('via', 'api')
     if via == 'api':
         if op in ('insert_lines', 'delete_lines'):
             n_opt = sym_opt_u32(ctx, 'a')
+            if remote and lines > 40:
+                is_some, nn = opt_parts(n_opt)
+                ctx.assume(z3.Or([nn.v == v for v in (0, 1, 2, 255, 256, 257, lines - 1, lines, lines + 1, 9999)]))
+                n_opt = some(Int('u32', ctx.concretize(nn.v))) if ctx.branch(to_z3bool(is_some)) else NONE
             run.call(op, n_opt)
         else:
             run.call(op)
@@ -93,8 +105,12 @@ def path_grid(ctx, job, box):
         cur_ok = z3.And(px == nx, py == ny)
     else:
         is_some, n = opt_parts(n_opt)
-        nv = n.v
+        nv = n.v if n is not None else 0
+        if isinstance(nv, int):
+            nv = B(nv)
         cnt = z3.If(z3.And(to_z3bool(is_some), nv != 0), nv, B(1))
+        kc = z3.simplify(cnt)
+        kc = kc.as_long() if z3.is_bv_value(kc) else None
         active = z3.And(z3.ULE(top, CY), z3.ULE(CY, bot))
         for y in range(lines):
             in_span = z3.And(active, z3.UGE(B(y), CY), z3.ULE(B(y), bot))
@@ -104,7 +120,7 @@ def path_grid(ctx, job, box):
             alts = blank
             for s in range(lines):
                 d = y - s if op == 'insert_lines' else s - y
-                if d <= 0:
+                if d <= 0 or (kc is not None and d != kc):
                     continue
                 if op == 'insert_lines':
                     cond = z3.And(cnt == d, z3.UGE(B(s), CY))
@@ -123,6 +139,58 @@ def path_grid(ctx, job, box):
                             '%s keeps a line or cell in storage beyond the screen (it is not gone; a taller or wider '
                             'resize shows it again)' % op))
     return checks
+
+
+def path_autowrap(ctx, job, box):
+    """A printable character arriving in the pending-wrap column with DECAWM on is an index: at the bottom
+    margin the region scrolls by exactly one line, elsewhere the cursor just moves down; the character
+    then lands in column 0 of the cursor's new row."""
+    cols, lines = job.params['geom']
+    ch = job.params['ch']
+    w = job.params['w']
+    modes = {'IRM': False, 'DECAWM': True, 'DECOM': 'sym', 'LNM': 'sym', 'DECSCNM': 'sym', 'DECTCEM': True, 'DECCOLM': False}
+    run = GridRun(ctx, box, cols, lines, cursor=('among', [(cols, y) for y in range(lines)]), tabstops=0, modes=modes,
+                  extra_mode=False, titles='none', saved_columns='none')
+    L = run.L
+    ss = run.ss
+    run.call('draw', Str.of(ch))
+    if run.outcome == 'panic':
+        return run.panic_check()
+    pre, post = run.pre, run.post
+    cy = ss.cy
+    B = lambda v: z3.BitVecVal(v, 32)
+    has_m = to_z3bool(ss.m_some)
+    top = z3.If(has_m, ss.m_top, B(0))
+    bot = z3.If(has_m, ss.m_bot, B(lines - 1))
+    CY = B(cy)
+    at_margin = CY == bot
+    ny = z3.If(at_margin, CY, z3.If(z3.ULE(CY + 1, bot), CY + 1, bot))
+    _, _, attr, _ = cursor_of(L, pre)
+    lead = attr.with_field(L.char['data'], Str.of(ch))
+    holder = attr.with_field(L.char['data'], Str(()))
+    dflt = default_cell(L, post)
+    cells_ok = True
+    for y in range(lines):
+        inside = z3.And(z3.UGE(B(y), top), z3.ULE(B(y), bot))
+        for x in range(cols):
+            pa = cell_alts(L, post, y, x)
+            same_cell = to_z3bool(alts_equal(pa, cell_alts(L, pre, y, x)))
+            blank = to_z3bool(alts_is(pa, dflt))
+            moved = to_z3bool(alts_equal(pa, cell_alts(L, pre, y + 1, x))) if y + 1 < lines else z3.BoolVal(False)
+            exp = z3.If(z3.And(at_margin, inside), z3.If(B(y) == bot, blank, moved), same_cell)
+            if x < w:
+                drawn = to_z3bool(alts_is(pa, lead if x == 0 else holder))
+                exp = z3.If(B(y) == ny, drawn, exp)
+            cells_ok = bool_and(cells_ok, exp)
+    px, py, _, _ = cursor_of(L, post)
+    cur_ok = z3.And(bv(px) == min(w, cols), bv(py) == ny)
+    frame = bool_and(fields_same(L, pre, post, except_=('buffer', 'dirty', 'cursor')),
+                     cursor_same(L, pre, post, except_=('x', 'y')))
+    return [run.check(cells_ok, 'autowrap (%s): the region did not scroll by exactly one line at the bottom margin / rows '
+                                'changed elsewhere / the character is not in column 0 of the new row' % job.params['cls']),
+            run.check(cur_ok, 'autowrap (%s): cursor is not on the documented row/column' % job.params['cls']),
+            run.check(frame, 'autowrap (%s) changed state other than grid, cursor position and dirty set' % job.params['cls']),
+            run.check(no_hidden(L, post, cols, lines), 'autowrap (%s) keeps a line or cell in storage beyond the screen' % job.params['cls'])]
 
 
 def path_margins(ctx, job, box):
@@ -205,6 +273,13 @@ def jobs(tier):
         for op in GRID_OPS:
             js.append(Job('%s/%dx%d' % (op, g[0], g[1]), path_grid, op=op, geom=g, prop=PROP))
     js.append(Job('set_margins/parametric', path_margins, prop=PROP))
+    # tall screens (also past the 8-bit boundary), sparsely written
+    for g in ([(2, 9)] if tier == 'quick' else [(2, 9), (1, 17), (2, 258)]):
+        for op in GRID_OPS:
+            js.append(Job('remote/%s/%dx%d' % (op, g[0], g[1]), path_grid, op=op, geom=g, remote=True, prop=PROP))
+    for g in ([(2, 3)] if tier == 'quick' else [(1, 3), (2, 3), (3, 2), (2, 4)]):
+        for cls, ch, w in (('narrow', 'Z', 1), ('wide', 'コ', 2)):
+            js.append(Job('autowrap/%s/%dx%d' % (cls, g[0], g[1]), path_autowrap, geom=g, ch=ch, w=w, cls=cls, prop=PROP))
     g = (1, 3)
     for op in ('index', 'reverse_index'):
         js.append(Job('parser/%s/1x3' % op, path_grid, op=op, geom=g, via='parser', prop=PROP))
@@ -217,10 +292,11 @@ def jobs(tier):
 
 
 META = {
-    'functions': ['index', 'linefeed', 'reverse_index', 'insert_lines', 'delete_lines', 'set_margins', 'cursor_up',
+    'functions': ['draw (autowrap)', 'index', 'linefeed', 'reverse_index', 'insert_lines', 'delete_lines', 'set_margins', 'cursor_up',
                   'cursor_down', 'cursor_position', 'cariage_return'],
     'bounds': 'lines 1..4 (thorough 5) x columns 1..2, every row/cell symbolically present or absent with distinct '
               'markers and symbolic renditions; every region (top,bottom) and cursor row; counts absent or 0..=9999; '
               'set_margins on symbolic geometry 1..=140 x 1..=40 with both parameters absent or 0..=9999',
-    'outside': 'taller/wider screens; autowrap-triggered scrolling is covered by C04',
+    'outside': 'taller/wider screens other than the sparsely written tall ones (quick 2x9; thorough + 1x17, 2x258 with the '
+               'count picked around 0..2, 255..257, lines-1..lines+1, 9999); autowrap-triggered scrolling with insert mode on (covered by C04)',
 }
